@@ -215,6 +215,14 @@ def spec_budget(ctx: Ctx) -> None:
             sites = fl.rdefs(arg.id, cfg.node_of(cz[0]))
             # max-accumulation over every primitive op's own setting
             ok = any(s.kind == "assign" and isinstance(s.value, ast.Call) and isinstance(s.value.func, ast.Name) and s.value.func.id == "max" and mentions_attr(s.value, k) and mentions_name(s.value, arg.id) for s in sites)
+            # or one max(...) over all operations' values: max(op.<k> for op in …) / max([0] + [...])
+            if not ok:
+                for s in sites:
+                    v_ = s.value
+                    if s.kind == "assign" and isinstance(v_, ast.Call) and isinstance(v_.func, ast.Name) and v_.func.id == "max" and mentions_attr(v_, k):
+                        comps_ = [g for g in ast.walk(v_) if isinstance(g, (ast.GeneratorExp, ast.ListComp))]
+                        if comps_ and all(not gen.ifs for g in comps_ for gen in g.generators) and not any(isinstance(x, ast.Subscript) and isinstance(x.slice, ast.Slice) for x in ast.walk(v_)):
+                            ok = True
         ctx.ob(cl, cz[0], ok, f"the create-arrays op gets the maximum {k} over the plan's operations", sel=f"budget:create:{k}")
 
 
